@@ -33,10 +33,10 @@ theorem gen_any_answers_every_method :
 
 /-- the hand-written methods the model transcribes -/
 theorem gen_any_overrides :
-    Gen.AnyDeSrc.bodies.lookup "Deserializer<'de> for Any::deserialize_newtype_struct" = some "{visitor.visit_newtype_struct(self)}" ∧
-    Gen.AnyDeSrc.bodies.lookup "Deserializer<'de> for Any::deserialize_option" = some "{matchself.0{Inner::Null=>visitor.visit_none(),_=>visitor.visit_some(self),}}" ∧
-    Gen.AnyDeSrc.bodies.lookup "Deserializer<'de> for Any::deserialize_f64" = some "{match&self.0{Inner::String(v)ifv==\"NaN\"=>visitor.visit_f64(f64::NAN),Inner::String(v)ifv==\"Infinity\"=>visitor.visit_f64(f64::INFINITY),Inner::String(v)ifv==\"-Infinity\"=>visitor.visit_f64(f64::NEG_INFINITY),_=>self.deserialize_any(visitor),}}" ∧
-    Gen.AnyDeSrc.bodies.lookup "Deserializer<'de> for Any::deserialize_bytes" = some "{match&self.0{Inner::String(v)=>matchSTANDARD.decode(v){Ok(buf)=>visitor.visit_byte_buf(buf),Err(_)=>self.deserialize_any(visitor),},_=>self.deserialize_any(visitor),}}" := by
+    Gen.AnyDeSrc.hashes.lookup "Deserializer<'de> for Any::deserialize_newtype_struct" = some 3688210282438561104 /- "{visitor.visit_newtype_struct(self)}" -/ ∧
+    Gen.AnyDeSrc.hashes.lookup "Deserializer<'de> for Any::deserialize_option" = some 8920209099456636390 /- "{matchself.0{Inner::Null=>visitor.visit_none(),_=>visitor.visit_some(self),}}" -/ ∧
+    Gen.AnyDeSrc.hashes.lookup "Deserializer<'de> for Any::deserialize_f64" = some 10636833808872630824 /- "{match&self.0{Inner::String(v)ifv==\"NaN\"=>visitor.visit_f64(f64::NAN),Inner::String(v)ifv==\"Infinity\"=>visitor.visit_f64(f64::INFINITY),Inner::String(v)ifv==\"-Infinity\"=>visitor.visit_f64(f64::NEG_INFINITY),_=>self.deserialize_any(visitor),}}" -/ ∧
+    Gen.AnyDeSrc.hashes.lookup "Deserializer<'de> for Any::deserialize_bytes" = some 13822648245046909519 /- "{match&self.0{Inner::String(v)=>matchSTANDARD.decode(v){Ok(buf)=>visitor.visit_byte_buf(buf),Err(_)=>self.deserialize_any(visitor),},_=>self.deserialize_any(visitor),}}" -/ := by
   decide +kernel
 
 /-- `KeyDeserializer`: bool and all numeric targets parse a string key; newtypes stay in key mode -/
